@@ -13,6 +13,17 @@ REALS_AXIOMS = ["ClassicalDedekindReals.sig_forall_dec", "ClassicalDedekindReals
                 "FunctionalExtensionality.functional_extensionality_dep"]
 
 PROPS = {
+    "C07": {
+        "drivers": [{"src": "drv_C07.C", "repo_sources": ["mode.cpp", "sample.cpp", "square_modulated_mode.cpp", "util/Pauli.C"]}],
+        "coq": ["Tie_C07.v", "Properties_C07.v"],
+        "thm_files": ["FilterModels.v", "LogNormal.v", "SampleModel.v"],
+        "assumptions": ["log-normal clauses: for every expectation functional with the Gaussian mgf (hypothesis of the closed theorem)",
+                        "boxcar and sample-and-hold: all widths and call indices by induction on the models; the real classes are tied at widths 1..5 / 1..4 over 13 calls",
+                        "modulation factor m >= 0 for the Stokes scaling law",
+                        "rectangular impulses: the reported lag statistics are REFUTED off (and on) alignment -- known finding"],
+        "trusted_base": [],
+        "level_note": "Trusted: Coq kernel; Reals axioms; symx translator; Gaussian mgf as a hypothesis. The rectangular model's lag statistics are refuted (known findings), everything else is proved.",
+    },
     "C08": {
         "drivers": [{"src": "drv_C08.C", "repo_sources": ["covariant.cpp", "mode.cpp", "util/Pauli.C"]}],
         "coq": ["Tie_C08_pairing.v", "Tie_C08_stats.v", "Properties_C08.v"],
